@@ -256,7 +256,7 @@ def _community():
 
 
 def mc(ctx, module, cfg, workers=None, timeout=1500, coverage=True, name=None, env=None, xmx="8g",
-       expect_violation=None):
+       expect_violation=None, disabled_ok=()):
     """Model-check a design-level module; a counter-example on the unchanged
     specification is a specification error (tool error), unless it is a
     negative control that must fail (expect_violation = invariant/property name)."""
@@ -283,7 +283,7 @@ def mc(ctx, module, cfg, workers=None, timeout=1500, coverage=True, name=None, e
     if coverage:
         cov = action_coverage(r["out"])
         entry["actions"] = cov
-        dead = [a for a, n in cov.items() if n == 0]
+        dead = [a for a, n in cov.items() if n == 0 and a not in disabled_ok]
         if dead:
             raise ToolError("vacuity: actions never taken in %s: %s" % (module, dead))
     ctx.mc.append(entry)
